@@ -323,16 +323,16 @@ pub fn replay(v: &serde_json::Value) -> Option<i32> {
     for _ in 0..5 {
         match burst(seed, 500 + b, 6, 6, scripts) {
             Ok(st) if !st.violations.is_empty() => {
-                println!("replay: FAIL {}", st.violations[0]);
+                crate::outln!("replay: FAIL {}", st.violations[0]);
                 return Some(1);
             }
             Ok(_) => {}
             Err(e) => {
-                println!("replay: inconclusive {}", e);
+                crate::outln!("replay: inconclusive {}", e);
                 return Some(2);
             }
         }
     }
-    println!("replay: PASS (5 bursts)");
+    crate::outln!("replay: PASS (5 bursts)");
     Some(0)
 }
